@@ -1,3 +1,4 @@
+import Ntrip.Guards.Apps
 import Ntrip.Properties.C11
 import Ntrip.Generated.Consts
 /-!
@@ -81,5 +82,15 @@ theorem tie_skeletons :
 
 /-! Non-vacuity (tests). -/
 example : copyLoop [[1, 2], [], [3]] = ([1, 2, 3], [[1, 2], [3]]) := by decide
+
+/-- Tie T1: what `readAndWrite` hands over — stdout gets the block just read; the recorder gets a
+    freshly made slice filled by `copy` (a private copy: the model's hand-over is by value, so the
+    read buffer must not be shared with the recorder goroutine). -/
+theorem tie_handover :
+    Gen.sent_logger_readAndWrite = some ["os.Stdout.Write(readBuffer[:n])",
+      "recorderChannel <- copyBuffer ; copyBuffer := make() ; copy(copyBuffer, readBuffer[:n])"] := by decide
+
+/-- Tie T1 (guards): the conditions and loops of `start`, `readAndWrite`, `recorder`, `writeRTCMLog`. -/
+theorem tie_guards_logger : type_of% Ntrip.Guards.logger := Ntrip.Guards.logger
 
 end Ntrip.C16
